@@ -219,6 +219,7 @@ def run(chk, ctx):
     round3.json_write_through(chk, ctx)    # definitions accepted before the crash are on disk
     from . import round4
     round4.clock_domains(chk, ctx)
+    round4.teardown_after_terminal_notification(chk, ctx)   # a crash between the release of the held events and the notification loses the end
     round4.orphan_entry_timer_paired(chk, ctx)
     chk.assume("the broker redelivers every unacknowledged message with redelivered=True after a restart with the same instance id")
     chk.assume("engine-internal calls do not raise; a crash is modelled as stopping at a CFG node")
